@@ -26,6 +26,7 @@ class St:
         s.ranges = {}         # index var name -> (lo X, count X)
         s.atom_eq = {}        # variable name -> X  (equalities learned from guards)
         s.events = []         # interpreter events (calls, stores) for clients
+        s.under = []          # conditions under which the rest of the current function runs after a conditional early return
 
     def clone(s):
         memo = {}
@@ -33,6 +34,7 @@ class St:
         n.env = {k: clone_val(v, memo) for k, v in s.env.items()}
         n.assumed = list(s.assumed); n.early = list(s.early); n.ranges = dict(s.ranges)
         n.atom_eq = dict(s.atom_eq); n.events = s.events   # events shared (append-only log)
+        n.under = list(s.under)
         for extra in ("mod", "fn_key", "loop_exits"):
             if hasattr(s, extra): setattr(n, extra, getattr(s, extra) if extra != "loop_exits" else list(s.loop_exits))
         n._memo = memo
@@ -367,9 +369,11 @@ class Interp:
         if k2 in ("raise",) and k1 is None:
             _adopt(st, s1); s._learn(st, cond, True); return None
         if k1 == "return" and k2 is None:
+            _carry_effects(s1, s2, cond, True)
             _adopt(st, s2); st.early = list(st.early) + [(((cond, True),), r1[1])]
             return None
         if k2 == "return" and k1 is None:
+            _carry_effects(s2, s1, cond, False)
             _adopt(st, s1); st.early = list(st.early) + [(((cond, False),), r2[1])]
             return None
         if k1 == "return" and k2 == "return":
@@ -832,6 +836,26 @@ def _remap(v, mp, seen=None):
     return v
 
 
+def _carry_effects(s_ret, s_cont, cond, pol_ret):
+    """a branch that returns early may have written into arrays that live on (output buffers): keep those stores, marked with the
+    branch condition, and mark everything the continuing branch stores from now on with the opposite condition."""
+    wrote = False
+    for oid, c_ret in s_ret._memo.items():
+        orig = ORIG.get(oid)
+        if not isinstance(orig, LocalArr) or not isinstance(c_ret, LocalArr): continue
+        c_cont = s_cont._memo.get(oid)
+        if not isinstance(c_cont, LocalArr): continue
+        n0 = len(orig.stores)
+        new = c_ret.stores[n0:]
+        if not new: continue
+        wrote = True
+        pos = n0          # the continuing branch has not run yet beyond the test: its own stores (if any) come after
+        for k, rec in enumerate(new):
+            c_cont.stores.insert(pos + k, (rec + (("under", cond, pol_ret),)) if rec[0] != "opaque" else rec)
+    if wrote:
+        s_cont.under = list(getattr(s_cont, "under", [])) + [(cond, not pol_ret)]
+
+
 def _adopt(st, other):
     mp = {}
     for oid, cl in other._memo.items():
@@ -842,6 +866,7 @@ def _adopt(st, other):
     st.env = {k: _remap(v, mp, seen) for k, v in other.env.items()}
     st.assumed = other.assumed; st.early = other.early
     st.ranges = other.ranges; st.atom_eq = other.atom_eq
+    st.under = list(getattr(other, "under", []))
     if hasattr(other, "loop_exits"): st.loop_exits = other.loop_exits
 
 
